@@ -391,7 +391,8 @@ def gen_chain(ctx, i):
     tgt_g, tidx, ops = random_chain(r, copy_geom(src_g), idx, length)
     opt = {'tgt_kind': r.choice(['geometry', 'volume']), 'mode': r.choice(['CONSTANT'] * 6 + ['MINIMUM', 'MAXIMUM', 'EDGE']),
            'channels': r.choice([0, 0, 0, 0, 2]), 'tol': r.choice([TOL] * 5 + [F(1, 1000), F(1, 10 ** 7)]),
-           'for_variant': r.choice(['same'] * 4 + ['tgt_none', 'src_none'])}
+           'for_variant': r.choice(['same'] * 4 + ['tgt_none', 'src_none']),
+           'src_kind': r.choice(['volume'] * 7 + ['geometry'])}
     if opt['for_variant'] == 'tgt_none':
         tgt_g['for'] = None
     elif opt['for_variant'] == 'src_none':
@@ -399,12 +400,36 @@ def gen_chain(ctx, i):
     return src_g, src_arr, tgt_g, tidx, ops, opt
 
 
+def run_geometry_source_case(ctx, case, src_g, tgt_g, tgt, opt, ops, reqs, pending):
+    src = make_geometry(src_g)
+    st, res = _call(src.match_geometry, tgt, tol=float(opt['tol']))
+    ctx.case(nontrivial_key=('chain-geom', tuple(ops), tuple(src_g['shape']), tuple(tgt_g['shape'])) if st == 'ok' else None,
+             stream='chain', src_kind='geometry', chain_length=len(ops), outcome=('ok' if st == 'ok' else res))
+    if st != 'ok':
+        ctx.fail(case, f'reachable target refused (geometry source): {res}', site='match_geometry/refused')
+        return
+    ra = frac_affine(res.affine)
+    ta = [F(float(x)) for x in affine12(tgt_g)]
+    if tuple(res.spatial_shape) != tuple(tgt_g['shape']) or not indep_geq_entries(ra, ta, opt['tol'], slack=F(1) + F(1, 2 ** 20)):
+        ctx.fail(case, {'what': 'matched geometry (geometry source) differs from the target', 'shape': list(res.spatial_shape),
+                        'got': [float(x) for x in ra], 'want': [float(x) for x in ta]}, site='match_geometry/geometry')
+    zeros = np.zeros(src_g['shape'], np.int32)
+    reqs.append(model_match_req(src_g, zeros, tgt_g, opt['tol'], 0))
+    impl = ('ok', {'shape': [int(x) for x in res.spatial_shape], 'affine': ra,
+                   'arr': [0] * int(np.prod(res.spatial_shape))})
+    pending.append(('match', case, impl, src_g['exact'] and tgt_g['exact']))
+
+
 def run_chain_case(ctx, i, reqs, pending):
     src_g, src_arr, tgt_g, tidx, ops, opt = gen_chain(ctx, i)
     case = {'stream': 'chain', 'index': i, 'seed': ctx.seed, 'ops': ops, 'src_shape': src_g['shape'],
             'tgt_shape': tgt_g['shape'], 'reachable': True, 'opt': {k: str(v) for k, v in opt.items()}}
-    src = make_volume(src_g, src_arr, opt['channels'])
     tgt = make_geometry(tgt_g) if opt['tgt_kind'] == 'geometry' else make_volume(tgt_g, np.zeros(tgt_g['shape'], np.int32))
+    if opt['src_kind'] == 'geometry':
+        # a VolumeGeometry can be matched too (no voxels): geometry clauses only
+        run_geometry_source_case(ctx, case, src_g, tgt_g, tgt, opt, ops, reqs, pending)
+        return
+    src = make_volume(src_g, src_arr, opt['channels'])
     st, res = _call(src.match_geometry, tgt, mode=opt['mode'], constant_value=CV, tol=float(opt['tol']))
     crop_kinds = sorted({t for o in ops if o.startswith('crop:') for t in o[5:].split('+')})
     ctx.case(sample=case if i % 37 == 0 else None,
